@@ -201,6 +201,14 @@ def build(prog):
             c = (xx ** 2 / 2 + x0_ ** 2 == s_)
             pep.add_constraint(c)
             b.held["s_pd"] = s_
+        elif code == "se":          # a genuinely small direction: |e|^2 = 1/4096, e orthogonal to x - x0
+            e_ = Point()
+            c = (e_ ** 2 == 1 / 4096)
+            pep.add_constraint(c)
+            c2 = (e_ * (xx - x0_) == 0)
+            pep.add_constraint(c2)
+            b.held["e_small"] = e_
+            b.held["c_se2"] = c2
         elif code == "dup":         # the same Constraint object declared twice on the problem
             c = ((xx - x0_) ** 2 <= 3 / 4)
             pep.add_constraint(c)
